@@ -33,3 +33,15 @@ package certexchange
 //@   at chanselect 1
 //@     before[delivers_only_in_sequence] request.FirstInstance + i <= 18446744073709551615 ==> cert.GPBFTInstance == request.FirstInstance + i
 //@     before[delivers_at_most_limit] i < request.Limit
+
+// C14 decoder sweep: no index, slice or allocation-size panic for any input the CBOR reader can produce.
+//@ func (*Request).UnmarshalCBOR
+//@   property C14
+//@   modifies auto
+//@   maypanic
+
+//@ func (*ResponseHeader).UnmarshalCBOR
+//@   property C14
+//@   modifies auto
+//@   maypanic
+
